@@ -1097,6 +1097,7 @@ class Stats:
         self.max_points = 0
         self.no_quiescence = 0
         self.capped = 0
+        self.turns = 0
 
     def merge(self, o):
         self.executions += o.executions
@@ -1128,6 +1129,7 @@ def explore(scn, bound, check, first=None, cap=None, stats=None, kinds_cost=None
         w = execute(scn, prefix)
         st.executions += 1
         st.choice_points += len(w.points)
+        st.turns += w.turn
         st.max_points = max(st.max_points, len(w.points))
         st.traces.add(w.sut_trace_hash())
         if w.no_quiescence:
